@@ -131,7 +131,7 @@ class Super:
                 if after_a:
                     for m in self.succs(n):
                         if m not in B and m not in parent:
-                            parent[m] = n
+                            parent[m] = ("START", n)
                             queue.append(m)
                 elif n not in B and n not in parent:
                     parent[n] = None
